@@ -52,6 +52,12 @@ pub open spec fn is_dir_role(r: Role) -> bool { r == Role::STAGING_DIR || r == R
 #[verifier::external_body] pub fn ev_intent_remove_own(w: &mut World)
     requires old(w).has(F::Intents),
     ensures *final(w) == *old(w) { unimplemented!() }
+/// apply_put_op consuming the key's registration: the registration protects the new blob until the index references it,
+/// so it may be consumed only after the index mutation of this critical section (an error exit before that leaves it to
+/// IntentGuard::drop, which restores what it displaced)
+#[verifier::external_body] pub fn ev_intent_consume(w: &mut World)
+    requires old(w).has(F::Intents), /*intent_consumed_only_after_apply*/ old(w).has(F::CsApplied),
+    ensures *final(w) == *old(w) { unimplemented!() }
 /// `list.retain(|h| !intents.values().any(|i| i == h))`: only meaningful after the index mutation, in the same critical section
 #[verifier::external_body] pub fn ev_filter_by_intents(w: &mut World)
     requires old(w).has(F::Intents), old(w).has(F::CsApplied),
